@@ -30,6 +30,45 @@ func WriteSimple(path string, comp, wbuf int, recs [][]byte) ([]uint64, uint64, 
 	return offs, size, w.Close()
 }
 
+// WriteRewound writes recs, seeks back to the start of the back-th record from the end, writes tail from there and
+// closes: the file must then hold recs[:len(recs)-back] followed by tail (what a writer that rolls back does).
+func WriteRewound(path string, comp, wbuf int, recs [][]byte, back int, tail [][]byte) ([]uint64, uint64, error) {
+	w, err := recordio.NewFileWriter(recordio.Path(path), recordio.CompressionType(comp), recordio.BufferSizeBytes(wbuf))
+	if err != nil {
+		return nil, 0, err
+	}
+	if err := w.Open(); err != nil {
+		return nil, 0, err
+	}
+	var offs []uint64
+	for _, r := range recs {
+		o, err := w.Write(r)
+		if err != nil {
+			_ = w.Close()
+			return nil, 0, err
+		}
+		offs = append(offs, o)
+	}
+	if back > 0 && back <= len(offs) {
+		to := offs[len(offs)-back]
+		offs = offs[:len(offs)-back]
+		if err := w.Seek(to); err != nil {
+			_ = w.Close()
+			return nil, 0, err
+		}
+	}
+	for _, r := range tail {
+		o, err := w.Write(r)
+		if err != nil {
+			_ = w.Close()
+			return nil, 0, err
+		}
+		offs = append(offs, o)
+	}
+	size := w.Size()
+	return offs, size, w.Close()
+}
+
 // ReadAll reads records sequentially until EOF or error. It returns the records read and the
 // terminating error (nil when the end was a clean io.EOF).
 func ReadAll(path string, rbuf int, limit int) ([][]byte, error) {
